@@ -396,17 +396,134 @@ func clientCase(seed uint64, idx int) *CaseSpec {
 	return &CaseSpec{Name: name, N: 1, Run: run, Inputs: func() []string { return []string{name} }}
 }
 
+// clientRaceCase: AwaitConverged runs concurrently with the receiver while one response both
+// completes every pending operation and violates the protocol (a result for an id that was
+// never queued). The waiter must get the recorded error, never "converged": the handler
+// processes a response and records its error as one step with respect to the waiter.
+func clientRaceCase(seed uint64, idx int) *CaseSpec {
+	name := fmt.Sprintf("client-race/%d/%d", seed, idx)
+	run := func(keep []int) (*Trace, error) {
+		r := rngFor(seed, idx)
+		t := &Trace{}
+		t.Add("begin %s", name)
+		c, err := client.New(client.PersistEntries(), client.ElectedPrimaryClient(&spb.Uint128{Low: 1}))
+		if err != nil {
+			return t, err
+		}
+		stub := &stubClient{}
+		c.UseStub(stub)
+		ctx, cancel := context.WithCancel(context.Background())
+		defer cancel()
+		if err := c.Connect(ctx); err != nil {
+			return t, err
+		}
+		defer func() { within(2*time.Second, func() { c.Close() }) }()
+		st := stub.last()
+		t.Add("cl.new 0")
+		c.StartSending()
+		t.Add("cl.start")
+		n := 1500 + r.IntN(1500)
+		req := &spb.ModifyRequest{}
+		parts := []string{}
+		res := []*spb.AFTResult{}
+		rparts := []string{}
+		for i := 1; i <= n; i++ {
+			o := mkClOp(r, uint64(i))
+			req.Operation = append(req.Operation, o.op)
+			parts = append(parts, fmt.Sprintf("%d %d %d %s", o.id, o.ty, o.kind, S(o.key)))
+			res = append(res, &spb.AFTResult{Id: uint64(i), Status: spb.AFTResult_RIB_PROGRAMMED})
+			rparts = append(rparts, fmt.Sprintf("%d:3", i))
+		}
+		if !within(3*time.Second, func() { c.Q(req) }) {
+			t.Add("hang")
+			t.Add("end")
+			return t, nil
+		}
+		t.Add("cl.q %d ; %s ; 0 0", n, strings.Join(parts, " ; "))
+		st.waitSent(3, 3*time.Second)
+		wait := func(before int64) {
+			for dl := time.Now().Add(3 * time.Second); time.Now().Before(dl); {
+				if ret := st.recvReturns.Load(); ret > before && st.recvCalls.Load() > ret {
+					return
+				}
+				time.Sleep(30 * time.Microsecond)
+			}
+		}
+		b := st.recvReturns.Load()
+		st.recvCh <- recvItem{resp: &spb.ModifyResponse{SessionParamsResult: &spb.SessionParametersResult{}}}
+		wait(b)
+		t.Add("cl.recv 0 0 1 []")
+		b = st.recvReturns.Load()
+		st.recvCh <- recvItem{resp: &spb.ModifyResponse{ElectionId: &spb.Uint128{Low: 1}}}
+		wait(b)
+		t.Add("cl.recv 0 1 0 []")
+		// the waiter spins on AwaitConverged while the last response arrives
+		res = append(res, &spb.AFTResult{Id: uint64(n + 777), Status: spb.AFTResult_RIB_PROGRAMMED})
+		rparts = append(rparts, fmt.Sprintf("%d:3", n+777))
+		errc := make(chan error, 1)
+		go func() {
+			actx, acancel := context.WithTimeout(context.Background(), 3*time.Second)
+			defer acancel()
+			errc <- c.AwaitConverged(actx)
+		}()
+		time.Sleep(time.Duration(r.IntN(300)) * time.Microsecond)
+		st.recvCh <- recvItem{resp: &spb.ModifyResponse{Result: res}}
+		var aerr error
+		select {
+		case aerr = <-errc:
+		case <-time.After(5 * time.Second):
+			t.Add("hang")
+			t.Add("end")
+			return t, nil
+		}
+		t.Add("cl.recv 1 0 0 [%s]", strings.Join(rparts, ","))
+		// let the receiver finish recording before the client's state is read
+		for dl := time.Now().Add(2 * time.Second); time.Now().Before(dl); {
+			s, _ := c.Status()
+			if s != nil && len(s.ReadErrs) > 0 {
+				break
+			}
+			time.Sleep(50 * time.Microsecond)
+		}
+		var ce *client.ClientErr
+		out := "timeout"
+		switch {
+		case aerr == nil:
+			out = "converged"
+		case errors.As(aerr, &ce):
+			out = fmt.Sprintf("errors %d %d", len(ce.Send), len(ce.Recv))
+		}
+		t.Add("cl.await => %s", out)
+		s, _ := c.Status()
+		p, _ := c.Pending()
+		ne := 0
+		if s != nil {
+			ne = len(s.SendErrs) + len(s.ReadErrs)
+		}
+		t.Add("cl.after %s %d %d", strings.Fields(out)[0], len(p), ne)
+		t.Add("end")
+		return t, nil
+	}
+	return &CaseSpec{Name: name, N: 1, Run: run, Atomic: true, Inputs: func() []string { return []string{name} }}
+}
+
 func init() {
+	client.BusyLoopDelay = 200 * time.Microsecond
 	modes["client"] = &Mode{
 		Name: "client",
-		Gen:  func(seed uint64, idx int, tier string) *CaseSpec { return clientCase(seed, idx) },
+		Gen: func(seed uint64, idx int, tier string) *CaseSpec {
+			if idx%5 == 4 {
+				return clientRaceCase(seed, idx)
+			}
+			return clientCase(seed, idx)
+		},
 		Count: func(tier string) int {
 			if tier == "thorough" {
 				return 3000
 			}
 			return 300
 		},
-		Required: []string{"cl.q", "cl.recv", "cl.await.converged", "cl.await.errors", "cl.await.timeout"},
+		Required: []string{"cl.q", "cl.recv", "cl.await.converged", "cl.await.errors", "cl.await.timeout", "cl.after"},
 	}
 	props["C13"] = &PropSpec{Mode: "client", Diffs: []string{"cl."}, Monitors: []string{"c13"}}
 }
